@@ -23,8 +23,11 @@ structure Table.Inv (h : Nat → Nat) (t : Table) : Prop where
   /-- the free list holds each free item once, no live item, and only items of allocated blocks -/
   free_nodup : t.free.Nodup
   free_disj : ∀ id ∈ t.free, id ∉ t.order
-  free_lt : ∀ id ∈ t.free, id < 4 * t.blocks
-  order_lt : ∀ id ∈ t.order, id < 4 * t.blocks
+  free_lt : ∀ id ∈ t.free, id < t.ipb * t.blocks
+  order_lt : ∀ id ∈ t.order, id < t.ipb * t.blocks
+  /-- the class constants: at least one item per block, default capacity ≥ 1 -/
+  ipb_pos : 0 < t.ipb
+  dcap_pos : 0 < t.dcap
 
 theorem nodup_of_map {α β : Type} (f : α → β) (l : List α) (h : (l.map f).Nodup) : l.Nodup := by
   induction l with
